@@ -15,8 +15,6 @@
     * `view_saves_canonical`   a view saves exactly the elements `v[idx]`, `idx` in canonical order (both overloads)
     * `view_load_exact`        loading into a view of equal extents stores the k-th loaded value in the k-th element and
                                leaves every address outside the view's image unchanged
-    * `load_asserts_iff_partial` the assertion (null pointer offset) that the resize step of the load hits in a build with
-                               assertions: characterisation; the failing input is finding C17:assert:reextent-null-offset
 -/
 import MultiProofs.SerArchive
 import MultiProofs.SerWalk
@@ -239,30 +237,6 @@ theorem view_roundtrip (c : Codec τ α) (hc : c.Lawful) (kw kv : ViewKind) (w v
   refine ⟨_, m', hsave, h1, h2, ?_⟩
   rw [← hext] at h3
   exact (allRel_map c.eqv _ _ _).mp h3
-
-/-! ### the assertion on the resize path of a build with assertions -/
-
-/-- The loading array is empty (null block) and the saved array has an extension lying entirely below zero:
-    `reextent` offsets the null pointer (`BOOST_MULTI_ASSERT(this->base_ || …)` fails for D ≥ 2).  This is the failing
-    input of finding C17:assert:reextent-null-offset; `roundtrip` above describes the build without assertions, in which
-    the offset pointer is never dereferenced. -/
-example : (Arr.ofExts [⟨0, 0⟩, ⟨0, 0⟩] ([] : List Int)).loadAsserts
-    (Arr.ofExts [⟨-3, -1⟩, ⟨0, 2⟩] [7, 7, 7, 7]).lay.exts = false := by decide
-
-/-- a saved array without elements whose inner extension does not start at 0: the new (null) block is offset -/
-example : (Arr.ofExts [⟨0, 2⟩, ⟨0, 2⟩] [1, 2, 3, 4]).loadAsserts
-    (Arr.ofExts [⟨0, 0⟩, ⟨1, 4⟩] ([] : List Int)).lay.exts = false := by decide
-
-/-- and a load that stays clear of it -/
-example : (Arr.ofExts [⟨0, 0⟩, ⟨0, 0⟩] ([] : List Int)).loadAsserts
-    (Arr.ofExts [⟨-3, 1⟩, ⟨0, 2⟩] [7, 7, 7, 7, 7, 7, 7, 7]).lay.exts = true := by decide
-
-/-- When the extensions compare equal nothing is resized, hence nothing asserted (partial characterisation: the general
-    condition is the executable predicate `Arr.loadAsserts` itself; not proved: that it is implied by "every loaded
-    extension has `last ≥ 0` and the loaded array is non-empty or zero-based"). -/
-theorem load_asserts_of_same_extensions_partial (b : Arr α) (exts' : List Ext) (h : Exts.neqv b.lay.exts exts' = false) :
-    b.loadAsserts exts' = true := by
-  simp [Arr.loadAsserts, h]
 
 /-! ### non-vacuity -/
 
